@@ -375,3 +375,49 @@ func IDLRoots(roots []*Shape) string {
 	}
 	return "namespace go verif\n" + strings.Join(defs, "") + "service Svc {\n" + strings.Join(methods, "\n") + "\n}\n"
 }
+
+// DropInLater makes container elements heterogeneous: element 0 of every list / set / map stays complete, every
+// later element loses the first (or last) field of each struct it contains. Per-element state of an
+// implementation (requiredness bitmaps, cursors) must not survive from one element to the next.
+func DropInLater(v *Val, first bool) { dropInLater(v, first, false) }
+
+func dropInLater(v *Val, first, drop bool) {
+	if v.T == STRUCT && len(v.Fs) > 0 && drop {
+		if first {
+			v.Fs = v.Fs[1:]
+		} else {
+			v.Fs = v.Fs[:len(v.Fs)-1]
+		}
+	}
+	for i, e := range v.L {
+		dropInLater(e, first, drop || i > 0)
+	}
+	for i, e := range v.K {
+		dropInLater(e, first, drop || i > 0)
+	}
+	for _, f := range v.Fs {
+		dropInLater(f.V, first, drop)
+	}
+}
+
+// HasStructInContainer: does the shape hold a struct as list / set element or map key / value (at any depth)?
+func HasStructInContainer(s *Shape) bool { return hasStructIn(s, false) }
+
+func hasStructIn(s *Shape, inC bool) bool {
+	if s == nil {
+		return false
+	}
+	if s.T == STRUCT && inC {
+		return true
+	}
+	c := inC || s.T == LIST || s.T == SET || s.T == MAP
+	if hasStructIn(s.Elem, c) || hasStructIn(s.Key, c) {
+		return true
+	}
+	for _, f := range s.Fields {
+		if hasStructIn(f.S, inC) {
+			return true
+		}
+	}
+	return false
+}
